@@ -251,6 +251,38 @@ def at_version(op, req, n):
     return Req(m, path, '1.%d' % n, body, roles=req['roles'])
 
 
+def alt_targets(op, req):
+    """the same operation aimed at OTHER entities: ones that do not exist,
+    and a consumer that holds nothing - whether a caller is authorised does
+    not depend on what the request is about"""
+    out = []
+    path = req['path']
+    unknown = '99999999-9999-4999-8999-999999999999'
+    p2 = path
+    for u in (R, C, S, E, K1, K2, K3):
+        p2 = p2.replace(u, unknown)
+    for n in ('CUSTOM_A', 'CUSTOM_T1', 'CUSTOM_UNUSED', 'CUSTOM_NEW2',
+              'CUSTOM_NEW'):
+        p2 = p2.replace('/' + n, '/CUSTOM_NOPE')
+    if p2 != path:
+        out.append(('unknown-entity', Req(req['method'], p2, req['version'],
+                                          req['body'], roles=req['roles'])))
+    if '/allocations/' in path:
+        out.append(('consumer-without-allocations', Req(
+            req['method'], '/allocations/%s' % K3, req['version'],
+            req['body'], roles=req['roles'])))
+    if '/resource_providers/' in path and E not in path:
+        # a provider without allocations, traits or aggregates
+        p3 = path
+        for u in (R, C, S):
+            p3 = p3.replace(u, E)
+        if p3 != path:
+            out.append(('bare-provider', Req(
+                req['method'], p3, req['version'], req['body'],
+                roles=req['roles'])))
+    return out
+
+
 def concrete_path(template):
     """an existing-entity path for a routing-table template."""
     return (template.replace('{uuid}', R)
